@@ -151,13 +151,13 @@ func (p *p2cPicker) buildDoneFunc(c *subConn) func(balancer.DoneInfo) {
 		if olag == 0 {
 			w = 0
 		}
-		atomic.StoreUint64(&c.lag, uint64(float64(olag)*w+float64(lag)*(1-w)))
+		atomic.StoreUint64(&c.lag, ewma(olag, uint64(lag), w))
 		success := initSuccess
 		if info.Err != nil && !codes.Acceptable(info.Err) {
 			success = 0
 		}
 		oSuccess := atomic.LoadUint64(&c.success)
-		atomic.StoreUint64(&c.success, uint64(float64(oSuccess)*w+float64(success)*(1-w)))
+		atomic.StoreUint64(&c.success, ewma(oSuccess, uint64(success), w))
 
 		stamp := p.stamp.Load()
 		if now-stamp >= logInterval {
@@ -166,6 +166,25 @@ func (p *p2cPicker) buildDoneFunc(c *subConn) func(balancer.DoneInfo) {
 			}
 		}
 	}
+}
+
+// ewma 返回 old 与 sample 按权重 w 的指数加权平均值（截断取整），
+// 并将结果限制在 [min(old, sample), max(old, sample)] 之内，避免浮点舍入使其越界。
+func ewma(old, sample uint64, w float64) uint64 {
+	lo, hi := old, sample
+	if lo > hi {
+		lo, hi = hi, lo
+	}
+
+	v := uint64(float64(old)*w + float64(sample)*(1-w))
+	if v < lo {
+		return lo
+	}
+	if v > hi {
+		return hi
+	}
+
+	return v
 }
 
 func (p *p2cPicker) logStats() {
